@@ -110,12 +110,137 @@ def iter_targets():
     return out
 
 
+def scale_view_hook(P, n):
+    """stats.scale(mode, view): the view argument is a by-value copy of a tensor MAP, which shares the storage of the object it
+    was copied from -- the scaling therefore acts on that object: pass its address (not the address of a temporary copy)"""
+    if n.get('kind') != 'CXXMemberCallExpr':
+        return None
+    me = n['inner'][0]
+    if me.get('kind') != 'MemberExpr' or me.get('name') != 'scale' or 'scalar_stats_t' not in qual_of(me['inner'][0]) or len(n['inner']) != 3:
+        return None
+    from cxx2c import unwrap
+    v = unwrap(n['inner'][2])
+    while v.get('kind') == 'CXXConstructExpr' and len(v.get('inner', [])) == 1:
+        v = unwrap(v['inner'][0])
+    if v.get('valueCategory') != 'lvalue':
+        return None
+    obj = me['inner'][0]
+    P.note('stats.scale(mode, map) -> nv_stats_scale(&stats, mode, &storage)')
+    return f'nv_stats_scale({P.addr(obj)}, {P.expr(n["inner"][1])}, {P.addr(v)})'
+
+
+def qual_of(node):
+    t = node.get('type', {})
+    return t.get('desugaredQualType', t.get('qualType', ''))
+
+
+def access_targets():
+    """targets(tnum, range) / flatten(tnum, range), the scaling wrappers and the chunk tasks of cache_targets / cache_flatten"""
+    H = 'specs/C09/access.h'
+    ITU = 'src/dataset/iterator.cpp'
+    types = [(r'^nano::(flatten|targets|base_dataset)_iterator_t$', 'struct nv_xiter'), (r'^nano::tensor_range_t$', 'struct nv_range'),
+             (r'^nano::dataset_t$', 'struct nv_dataset'), (r'^nano::scalar_stats_t$', 'struct nv_stats'), (r'^nano::scaling_type$', 'int32_t'),
+             (r'^nano::indices_t$|tensor_t<nano::tensor_vector_storage_t, long, 1', 'struct nv_samples'),
+             (r'^(nano::)?(indices_c?map_t|tensor_c?map_t<long, 1UL>)$|tensor_t<nano::tensor_(carray|marray)_storage_t, long, 1', 'struct nv_sslice'),
+             (r'buffers_t$|^std::vector<nano::tensor_t<nano::tensor_vector_storage_t, double, [24]>', 'struct nv_bufs'),
+             (r'__alloc_traits<.*tensor_vector_storage_t, double, [24]>.*::value_type$', 'struct nv_buf'),
+             (r'^nano::tensor[24]d_(c?map_)?t$|^(nano::)?tensor_c?map_t<double, [24]UL>$|tensor_t<nano::tensor_(carray|marray|vector)_storage_t, double, [24]', 'struct nv_data')]
+    common = dict(self_struct='struct nv_xiter', types=types, uf_float=False, hooks=[scale_view_hook])
+    members = [(r'^size\|nano::tensor_base_t<double, [24], true>', '{self}->rows'), (r'^size\|nano::tensor_base_t<long, 1, true>', '{self}->size'),
+               (r'^slice\|nano::tensor[24]d_t$|^slice\|nano::tensor_t<nano::tensor_vector_storage_t, double, [24]', 'nv_cache_slice({self}, {&0})'),
+               (r'^slice\|nano::indices_t|^slice\|nano::tensor_t<nano::tensor_vector_storage_t, long, 1', 'nv_samples_slice({self}, {&0})'),
+               (r'^dataset\|nano::base_dataset_iterator_t \*', '(*nv_ds({self}))'), (r'^samples\|nano::targets_iterator_t \*', '({self}->m_samples)'),
+               (r'^targets\|nano::dataset_t', 'nv_ds_targets({self}, {0}, {&1})'), (r'^flatten\|nano::dataset_t', 'nv_ds_flatten({self}, {0}, {&1})'),
+               (r'^targets\|nano::targets_iterator_t \*', 'targets_scaled({self}, {0})'), (r'^flatten\|nano::flatten_iterator_t \*', 'flatten_scaled({self}, {0})'),
+               (r'^scaling\|nano::targets_iterator_t \*', '{self}->m_scaling'),
+               (r'^begin\|nano::tensor_range_t', '{self}->m_begin'), (r'^end\|nano::tensor_range_t', '{self}->m_end'),
+               (r'^size\|nano::tensor_range_t', '({self}->m_end - {self}->m_begin)')]
+    calls = [(r'^operator\[\]\|', '(*nv_buf_at({&0}, {1}))'), (r'^make_range\|', 'make_range({0}, {1})'),
+             (r'^operator=\|.*tensor_marray_storage_t, double, [24]', 'nv_cache_store({0}, {1})'),
+             (r'^ctor\|nano::tensor_t<nano::tensor_carray_storage_t, double, [24]>\|void \(const tensor_t<nano::tensor_marray_storage_t, double, [24]UL> &\)', '{0}'),
+             (r'^ctor\|nano::tensor_t<nano::tensor_carray_storage_t, long, 1>\|void \(const tensor_t<nano::tensor_marray_storage_t, long, 1UL> &\)', '{0}'),
+             (r'^ctor\|nano::tensor_range_t\|void \((const )?nano::tensor_size_t, (const )?nano::tensor_size_t\)', 'nv_range_make({0}, {1})')]
+    wrap_members = members
+    nparams = lambda k: (lambda d: len(astload.param_types(d)) == k)
+    tsc = lambda: Fn('targets_scaled', ITU, 'targets', flt='targets_iterator_t::targets', select=nparams(1), members=wrap_members, calls=calls, **common)
+    fsc = lambda: Fn('flatten_scaled', ITU, 'flatten', flt='flatten_iterator_t::flatten', select=nparams(1), members=wrap_members, calls=calls, **common)
+    tat = Fn('targets_at', ITU, 'targets', flt='targets_iterator_t::targets', select=nparams(2), members=members, calls=calls, **common)
+    fat = Fn('flatten_at', ITU, 'flatten', flt='flatten_iterator_t::flatten', select=nparams(2), members=members, calls=calls, **common)
+    rng = lambda: Fn('range_ctor', ITU, 'tensor_range_t', flt='nano::tensor_range_t::tensor_range_t', kinds=('CXXConstructorDecl',),
+                     select=nparams(2), self_struct='struct nv_range', types=types, uf_float=False)
+    mkr = lambda: Fn('make_range', ITU, 'make_range', flt='nano::make_range', types=types, uf_float=False, calls=calls)
+    ctt = Fn('cache_targets_task', ITU, 'cache_targets', flt='targets_iterator_t::cache_targets', lambda_index=0, members=members, calls=calls, **common)
+    cft = Fn('cache_flatten_task', ITU, 'cache_flatten', flt='flatten_iterator_t::cache_flatten', lambda_index=0, members=members, calls=calls,
+             extra_params=['struct nv_samples* samples', 'struct nv_dataset* dataset'], **common)
+    return [Target('targets_scaled', [tsc()], H), Target('flatten_scaled', [fsc()], H),
+            Target('targets_at', [tat, tsc()], H), Target('flatten_at', [fat, fsc()], H),
+            Target('cache_targets_task', [ctt, tsc(), mkr(), rng()], H), Target('cache_flatten_task', [cft, fsc(), mkr(), rng()], H)]
+
+
+VG_TYPES = [(r'__normal_iterator<nano::(linear|gboost)::accumulator_t \*|^std::vector<nano::(linear|gboost)::accumulator_t>::iterator$', 'uint64_t'),
+            (r'Eigen::|CwiseBinaryOp<|CwiseUnaryOp<|ArrayWrapper<|ArrayBase<|DenseBase<|MatrixBase<', 'struct nv_expr'),
+            (r'^nano::linear::function_t$', 'struct nv_lfun'), (r'^nano::gboost::(bias|scale|grads)_function_t$', 'struct nv_gfun'),
+            (r'^nano::(linear|gboost)::accumulators_t$|^std::vector<nano::(linear|gboost)::accumulator_t', 'struct nv_vaccs'),
+            (r'^nano::(linear|gboost)::accumulator_t$|__alloc_traits<.*accumulator_t.*::value_type$', 'struct nv_vacc'),
+            (r'^nano::(flatten|targets|base_dataset)_iterator_t$', 'struct nv_miter'), (r'^nano::dataset_t$', 'struct nv_dsinfo'),
+            (r'^nano::cluster_t$', 'struct nv_cluster'), (r'^nano::loss_t$', 'struct nv_loss'), (r'^nano::tensor_range_t$', 'struct nv_range'),
+            (r'^nano::indices_t$|tensor_t<nano::tensor_vector_storage_t, long, 1', 'struct nv_samples'),
+            (r'^nano::(vector_c?map_t|vector_t|tensor\dd_(c?map_)?t)$|^(const )?(nano::)?tensor_c?map_t<double, \dUL>$|tensor_t<nano::tensor_(carray|marray|vector)_storage_t, double, \d', 'struct nv_tens')]
+VG_ITER = [(r'^operator!=\|bool \(const __normal_iterator', '({0} != {1})'), (r'^operator\+\+\|.*__normal_iterator', '(++{0})'),
+           (r'^operator\*\|.*__normal_iterator<nano::(linear|gboost)::accumulator_t', '(*nv_vacc_iter({0}))')]
+VG_MEMBERS = [(r'^begin\|(nano::(linear|gboost)::accumulators_t|std::vector<nano::(linear|gboost)::accumulator_t)', '((uint64_t)0)'),
+              (r'^end\|(nano::(linear|gboost)::accumulators_t|std::vector<nano::(linear|gboost)::accumulator_t)', '{self}->size'),
+              (r'^size\|(nano::(linear|gboost)::accumulators_t|std::vector<nano::(linear|gboost)::accumulator_t)', '{self}->size'),
+              (r'^clear\|nano::(linear|gboost)::accumulator_t', 'nv_vacc_clear'),
+              (r'^loop\|nano::(flatten|targets)_iterator_t', 'nv_iter_loop({self})'),
+              (r'^samples\|nano::targets_iterator_t', '({self}->m_samples)'), (r'^dataset\|nano::base_dataset_iterator_t', '(*nv_iter_dataset({self}))'),
+              (r'^samples\|nano::dataset_t', '{self}->n_samples'), (r'^samples\|nano::cluster_t', '{self}->n_samples'),
+              (r'^groups\|nano::cluster_t', '{self}->n_groups'), (r'^columns\|nano::dataset_t', '{self}->n_columns'),
+              (r'^size\|nano::tensor_base_t<long, 1, true>', '{self}->size'), (r'^size\|nano::tensor_base_t<double, \d, true>', '{self}->size')]
+VG_CALLS = VG_ITER + [(r'^sum_reduce\|', '(*nv_sum_reduce({&0}, {1}))'),
+                      (r'^operator\[\]\|std::vector<nano::(linear|gboost)::accumulator_t>::reference', '(*nv_vacc_at({&0}, {1}))')]
+
+
+def vgrad_targets():
+    H = 'specs/C09/vgrad.h'
+    LTU = 'src/linear/function.cpp'
+    lmembers = VG_MEMBERS + [(r'^bias\|nano::linear::function_t \*', 'nv_part({&0}, NV_ROLE_BIAS, nv_nondet_int64_t())'),
+                             (r'^weights\|nano::linear::function_t \*', 'nv_part({&0}, NV_ROLE_WEIGHTS, nv_nondet_int64_t())'),
+                             (r'^array\|', 'nv_e_of({self})'), (r'^(sign|abs|square)\|', 'nv_e_unary({*self})'), (r'^mean\|', 'nv_e_mean({*self})')]
+    lcalls = VG_CALLS + [(r'^operator=\|nano::tensor_t<nano::tensor_marray_storage_t, double, [12]> &\(const tensor_t<nano::tensor_vector_storage_t, double, [12]UL> &\)', 'nv_part_assign({&0}, {&1})'),
+                         (r'^operator\*\|', 'nv_e_scale({0}, {1})'), (r'^operator/\|', 'nv_e_div({0}, {1})'), (r'^operator\+=\|.*ArrayWrapper', 'nv_arr_add({0}, {1})'),
+                         (r'^sqrt\|', '__CPROVER_uninterpreted_fsqrt({0})')]
+    ldo = Fn('linear_do_vgrad', LTU, 'do_vgrad', flt='linear::function_t::do_vgrad', self_struct='struct nv_lfun', types=VG_TYPES,
+             members=lmembers, calls=lcalls)
+    GTU = 'src/gboost/function.cpp'
+    gtypes = [(r'^nano::tensor4d_dims_t$|^std::array<long, 4(UL)?>$|tensor_dims_t<4|tensor_dims_t<3UL \+ 1>', 'struct nv_dims'), (r'^nano::tensor3d_dims_t$|^std::array<long, 3>$|tensor_dims_t<3', 'uint64_t')] + VG_TYPES
+    gmembers = VG_MEMBERS + [(r'^vgrad\|nano::gboost::accumulator_t', 'nv_acc_vgrad({self}, {0})'), (r'^target_dims\|nano::dataset_t', '{self}->tdims'),
+                             (r'^data\|', '({self})'),
+                             (r'^gradients\|nano::gboost::grads_function_t \*', '(*grads_gradients({self}, {&0}))'),
+                             (r'^vector\|', 'nv_e_vec({self})'), (r'^mean\|', 'nv_e_mean_of({*self})')]
+    gcalls = VG_CALLS + [(r'^clear\|void \(nano::gboost::accumulators_t &\)', 'nv_clear_all({&0})'), (r'^size\|', 'nv_dims_size({0})'),
+                         (r'^cat_dims\|', 'nv_cat_dims({0}, {1})'), (r'^map_tensor\|', 'nv_map_tensor({0}, {1})'),
+                         (r'^operator/\|', 'nv_e_divd({0}, {1})'), (r'^operator=\|.*tensor_marray_storage_t, double, 1', 'nv_vec_assign({&0}, {1})')]
+    gcommon = dict(self_struct='struct nv_gfun', types=gtypes, members=gmembers, calls=gcalls)
+    bdo = Fn('bias_do_vgrad', GTU, 'do_vgrad', flt='bias_function_t::do_vgrad', **gcommon)
+    sdo = Fn('scale_do_vgrad', GTU, 'do_vgrad', flt='scale_function_t::do_vgrad', **gcommon)
+    gdo = Fn('grads_do_vgrad', GTU, 'do_vgrad', flt='grads_function_t::do_vgrad', **gcommon)
+    ggr = lambda: Fn('grads_gradients', GTU, 'gradients', flt='grads_function_t::gradients', **gcommon)
+    return [Target('linear_do_vgrad', [ldo], H), Target('bias_do_vgrad', [bdo], H), Target('scale_do_vgrad', [sdo], H),
+            Target('grads_do_vgrad', [gdo, ggr()], H, replace=['grads_gradients']), Target('grads_gradients', [ggr()], H)]
+
+
 def build(tier):
-    targets = reduce_targets() + acc_targets() + iter_targets()
+    targets = reduce_targets() + acc_targets() + iter_targets() + access_targets() + vgrad_targets()
     import reg_smt
     bounded, fns = [], []
     for n in (1, 2, 3):
-        v, info = reg_smt.vcs_for(n)
+        try:
+            v, info = reg_smt.vcs_for(n)
+        except astload.ExtractionError as e:
+            # the walk over do_vgrad met something outside its vocabulary: this stand-in is undecided, the other targets still decide
+            v = [VC(f'linear_do_vgrad_reg[n={n}]/not extracted: {str(e)[:160]}', '(check-sat)', solvers=['none'], about='regularisation terms (bounded): extraction failed')]
+            info = {'c_name': f'linear_do_vgrad_reg[n={n}]', 'cxx': 'linear::function_t::do_vgrad (regularisation part)', 'file': reg_smt.FILE, 'undecided': str(e)[:300]}
         for x in v:
             x.bound = f'|W| = {n}'
         bounded += v
